@@ -398,11 +398,12 @@ def gen_case(rng: random.Random, P: Dict[str, Any]) -> Case:
             case.services[sname] = {"mode": "raise" if fails else "ret", "value": len(case.services)}
             inv = {"src": sname, "id": iid, "input": {"who": s.key}}
             case.invokes[s.id] = inv
-            td = mk(s, f"done.invoke.{iid}", "invDone", 0, forward_only=True, targetless_ok=True)
+            td = mk(s, f"done.invoke.{iid}", "invDone", 0, forward_only=not P.get("loops", False),
+                    targetless_ok=True)
             td.guard = None
             if fails or rng.random() < 0.5:
-                te = mk(s, f"error.platform.{iid}", "invError", 0, forward_only=True,
-                        targetless_ok=True)
+                te = mk(s, f"error.platform.{iid}", "invError", 0,
+                        forward_only=not P.get("loops", False), targetless_ok=True)
                 te.guard = None
         if s.kind != "final" and rng.random() < P["p_after"]:
             for pos, delay in enumerate(rng.sample(P.get("after_delays", [100000, 200000, 300000]),
